@@ -517,4 +517,235 @@ theorem gp_poly_negate_inplace_p_model (l : Level) (a : List Nat) (ha : a.length
   simp only []
   rw [gp_negate_inplace_p_loop_eq, gp_rnsNeg_eq, show l.qs.toList.length = l.size by simp [Level.size]]
   exact gp_unI_model _ negateMod (fun x m => gp_poly_negate_inplace_eq x m) l a ha hB
+/-! ### `_ps` wrappers: a `_p` wrapper applied to the consecutive polynomials of a ciphertext buffer -/
+
+theorem gp_stepI_length {α : Type} (Post : Nat → Nat → Nat → R α) (K : Nat → α → List Nat → R (List Nat))
+    (hlen : ∀ i a x o, K i a x = .ok o → o.length = x.length) (i off up : Nat) (r r' : List Nat)
+    (h : gp_stepI Post K i off up r = .ok r') : r'.length = r.length := by
+  unfold gp_stepI GenP.slice at h
+  by_cases hs : off ≤ up ∧ up ≤ r.length
+  · rw [if_pos hs] at h
+    simp only [bind, Except.bind] at h
+    cases hp : Post i off up with
+    | error e => rw [hp] at h; cases h
+    | ok a =>
+      rw [hp] at h
+      simp only [] at h
+      cases hk : K i a ((r.drop off).take (up - off)) with
+      | error e => rw [hk] at h; cases h
+      | ok o =>
+        rw [hk] at h
+        cases h
+        have ho := hlen _ _ _ _ hk
+        rw [List.length_take, List.length_drop] at ho
+        unfold GenP.splice
+        simp only [List.length_append, List.length_take, List.length_drop]
+        omega
+  · rw [if_neg hs] at h; cases h
+
+theorem gp_bloop_length (step : Nat → Nat → Nat → List Nat → R (List Nat)) (n : Nat)
+    (hs : ∀ i off up r r', step i off up r = .ok r' → r'.length = r.length) :
+    ∀ cnt i r off o, gp_bloop step n cnt i r off = .ok o → o.length = r.length := by
+  intro cnt
+  induction cnt with
+  | zero => intro i r off o h; rw [gp_bloop] at h; cases h; rfl
+  | succ c ih =>
+    intro i r off o h
+    rw [gp_bloop] at h
+    cases hc : ckAdd off n with
+    | error e => simp only [hc, bind, Except.bind] at h; cases h
+    | ok up =>
+      simp only [hc, bind, Except.bind] at h
+      cases hst : step i off up r with
+      | error e => rw [hst] at h; cases h
+      | ok r1 =>
+        rw [hst] at h
+        rw [ih _ _ _ _ h, hs _ _ _ _ _ hst]
+
+theorem gp_ps_model {α : Type} (Post : Nat → Nat → Nat → R α) (K : Nat → α → List Nat → R (List Nat)) (d pc : Nat) (a : List Nat)
+    (M : Nat → R RnsPoly) (FL : RnsPoly → List Nat)
+    (hlen : ∀ i p x o, K i p x = .ok o → o.length = x.length)
+    (hBM : ∀ i, i < pc → (do let p ← Post i (i * d) (i * d + d); K i p (gp_blk d a i)) = Except.map FL (M i))
+    (hr : pc * d ≤ a.length) (hB : a.length < B64) :
+    gp_bloop (gp_stepI Post K) d pc 0 a 0 =
+      (do let outs ← (List.range pc).mapM M; pure ((outs.map FL).flatten ++ a.drop (pc * d))) := by
+  rw [gp_stepI_blocks Post K d hlen pc a hr hB]
+  have h := gp_blocks_mapM (fun j x => do let p ← Post j (j * d) (j * d + d); K j p x) d a pc 0
+  simp only [Nat.zero_mul, List.drop_zero, Nat.zero_add] at h
+  rw [h, ← List.range_eq_range', gp_mapM_congr' _ (fun j => Except.map FL (M j)) _ (fun j hj => hBM j (List.mem_range.mp hj)),
+    gp_mapM_map]
+  cases (List.range pc).mapM M with
+  | error e => rfl
+  | ok outs => rfl
+
+/-! #### add_inplace_ps / sub_inplace_ps / negate_inplace_ps / multiply_scalar_inplace_ps -/
+
+theorem gp_add_inplace_p_len (x y : List Nat) (n : Nat) (mods : List Modulus) (o : List Nat)
+    (h : GenP.poly_add_inplace_p x y n mods = .ok o) : o.length = x.length := by
+  unfold GenP.poly_add_inplace_p at h
+  simp only [] at h
+  rw [gp_add_inplace_p_loop_eq] at h
+  exact gp_bloop_length _ _ (gp_stepI_length _ _ (fun _ p x o h => gp_add_inplace_len x p.1 p.2 o h)) _ _ _ _ _ h
+
+theorem gp_add_inplace_ps_loop_eq (b : List Nat) (pc n : Nat) (mods : List Modulus) (d : Nat) : ∀ cnt i r off,
+    GenP.poly_add_inplace_ps_loop1 b pc n mods d cnt i r off =
+      gp_bloop (gp_stepI (fun _ off up => GenP.slice b off up) (fun _ t3 x => GenP.poly_add_inplace_p x t3 n mods)) d cnt i r off := by
+  intro cnt
+  induction cnt with
+  | zero => intro i r off; rfl
+  | succ c ih =>
+    intro i r off
+    rw [GenP.poly_add_inplace_ps_loop1, gp_bloop]
+    simp only [gp_stepI, bind_assoc, pure_bind, ih]
+
+/-- `add_inplace_ps(polys1, polys2, pcount, degree, moduli)`: `rnsAdd` of the first `pcount` polynomials, the rest of `polys1` kept -/
+theorem gp_poly_add_inplace_ps_model (l : Level) (a b : List Nat) (pc : Nat) (hd : l.n * l.size < B64)
+    (ha : pc * (l.size * l.n) ≤ a.length) (hb : pc * (l.size * l.n) ≤ b.length) (hB : a.length < B64) :
+    GenP.poly_add_inplace_ps a b pc l.n l.qs.toList =
+      (do let outs ← (List.range pc).mapM (fun i => rnsAdd l (unflattenRns l.size l.n (gp_blk (l.size * l.n) a i))
+                                                           (unflattenRns l.size l.n (gp_blk (l.size * l.n) b i)))
+          pure ((outs.map (flattenRns l.size l.n)).flatten ++ a.drop (pc * (l.size * l.n)))) := by
+  unfold GenP.poly_add_inplace_ps
+  have hck : ckMul l.n l.qs.toList.length = .ok (l.size * l.n) := by
+    unfold ckMul; rw [show l.qs.toList.length = l.size by simp [Level.size], if_pos hd, Nat.mul_comm]
+  simp only [hck, bind, Except.bind]
+  rw [gp_add_inplace_ps_loop_eq]
+  apply gp_ps_model _ _ _ _ _ _ _ (fun _ p x o h => gp_add_inplace_p_len x p l.n _ o h) _ ha hB
+  intro i hi
+  have hia : i * (l.size * l.n) + l.size * l.n ≤ a.length := Nat.le_trans (gp_blk_bound hi) ha
+  have hib : i * (l.size * l.n) + l.size * l.n ≤ b.length := Nat.le_trans (gp_blk_bound hi) hb
+  simp only [gp_slice_blk b i _ hib, bind, Except.bind]
+  exact gp_poly_add_inplace_p_model l _ _ (gp_blk_length _ _ _ hia) (by rw [gp_blk_length _ _ _ hib])
+    (by rw [gp_blk_length _ _ _ hia]; omega)
+
+theorem gp_sub_inplace_p_len (x y : List Nat) (n : Nat) (mods : List Modulus) (o : List Nat)
+    (h : GenP.poly_sub_inplace_p x y n mods = .ok o) : o.length = x.length := by
+  unfold GenP.poly_sub_inplace_p at h
+  simp only [] at h
+  rw [gp_sub_inplace_p_loop_eq] at h
+  exact gp_bloop_length _ _ (gp_stepI_length _ _ (fun _ p x o h => gp_sub_inplace_len x p.1 p.2 o h)) _ _ _ _ _ h
+
+theorem gp_sub_inplace_ps_loop_eq (b : List Nat) (pc n : Nat) (mods : List Modulus) (d : Nat) : ∀ cnt i r off,
+    GenP.poly_sub_inplace_ps_loop1 b pc n mods d cnt i r off =
+      gp_bloop (gp_stepI (fun _ off up => GenP.slice b off up) (fun _ t3 x => GenP.poly_sub_inplace_p x t3 n mods)) d cnt i r off := by
+  intro cnt
+  induction cnt with
+  | zero => intro i r off; rfl
+  | succ c ih =>
+    intro i r off
+    rw [GenP.poly_sub_inplace_ps_loop1, gp_bloop]
+    simp only [gp_stepI, bind_assoc, pure_bind, ih]
+
+/-- `sub_inplace_ps`: `rnsSub` of the first `pcount` polynomials, the rest of `polys1` kept -/
+theorem gp_poly_sub_inplace_ps_model (l : Level) (a b : List Nat) (pc : Nat) (hd : l.n * l.size < B64)
+    (ha : pc * (l.size * l.n) ≤ a.length) (hb : pc * (l.size * l.n) ≤ b.length) (hB : a.length < B64) :
+    GenP.poly_sub_inplace_ps a b pc l.n l.qs.toList =
+      (do let outs ← (List.range pc).mapM (fun i => rnsSub l (unflattenRns l.size l.n (gp_blk (l.size * l.n) a i))
+                                                           (unflattenRns l.size l.n (gp_blk (l.size * l.n) b i)))
+          pure ((outs.map (flattenRns l.size l.n)).flatten ++ a.drop (pc * (l.size * l.n)))) := by
+  unfold GenP.poly_sub_inplace_ps
+  have hck : ckMul l.n l.qs.toList.length = .ok (l.size * l.n) := by
+    unfold ckMul; rw [show l.qs.toList.length = l.size by simp [Level.size], if_pos hd, Nat.mul_comm]
+  simp only [hck, bind, Except.bind]
+  rw [gp_sub_inplace_ps_loop_eq]
+  apply gp_ps_model _ _ _ _ _ _ _ (fun _ p x o h => gp_sub_inplace_p_len x p l.n _ o h) _ ha hB
+  intro i hi
+  have hia : i * (l.size * l.n) + l.size * l.n ≤ a.length := Nat.le_trans (gp_blk_bound hi) ha
+  have hib : i * (l.size * l.n) + l.size * l.n ≤ b.length := Nat.le_trans (gp_blk_bound hi) hb
+  simp only [gp_slice_blk b i _ hib, bind, Except.bind]
+  exact gp_poly_sub_inplace_p_model l _ _ (gp_blk_length _ _ _ hia) (by rw [gp_blk_length _ _ _ hib])
+    (by rw [gp_blk_length _ _ _ hia]; omega)
+
+theorem gp_unI_len (Ku : List Nat → Modulus → R (List Nat)) (F : Nat → Modulus → R Nat)
+    (hK : ∀ x m, Ku x m = Except.map Array.toList (mapM' x.toArray (fun u => F u m))) (x : List Nat) (m : Modulus) (o : List Nat)
+    (h : Ku x m = .ok o) : o.length = x.length := by
+  rw [hK] at h
+  cases hm : mapM' x.toArray (fun u => F u m) with
+  | error e => rw [hm] at h; cases h
+  | ok v =>
+    rw [hm] at h; cases h
+    have := gp_mapM'_size _ _ _ hm
+    simpa using this
+
+theorem gp_negate_inplace_p_len (x : List Nat) (n : Nat) (mods : List Modulus) (o : List Nat)
+    (h : GenP.poly_negate_inplace_p x n mods = .ok o) : o.length = x.length := by
+  unfold GenP.poly_negate_inplace_p at h
+  simp only [] at h
+  rw [gp_negate_inplace_p_loop_eq] at h
+  exact gp_bloop_length _ _ (gp_stepI_length _ _
+    (fun _ m x o h => gp_unI_len _ negateMod (fun x m => gp_poly_negate_inplace_eq x m) x m o h)) _ _ _ _ _ h
+
+theorem gp_negate_inplace_ps_loop_eq (pc n : Nat) (mods : List Modulus) (d : Nat) : ∀ cnt i r off,
+    GenP.poly_negate_inplace_ps_loop1 pc n mods d cnt i r off =
+      gp_bloop (gp_stepI (fun _ _ _ => (pure () : R Unit)) (fun _ _ x => GenP.poly_negate_inplace_p x n mods)) d cnt i r off := by
+  intro cnt
+  induction cnt with
+  | zero => intro i r off; rfl
+  | succ c ih =>
+    intro i r off
+    rw [GenP.poly_negate_inplace_ps_loop1, gp_bloop]
+    cases hck : ckAdd off d with
+    | error e => rfl
+    | ok up =>
+      simp only [gp_stepI, ih, bind, Except.bind, pure, Except.pure]
+      cases GenP.slice r off up with
+      | error e => rfl
+      | ok v =>
+        simp only []
+        cases GenP.poly_negate_inplace_p v n mods with
+        | error e => rfl
+        | ok o => rfl
+
+/-- `negate_inplace_ps(polys, pcount, degree, moduli)`: `rnsNeg` of the first `pcount` polynomials (the body of `ctNegate`) -/
+theorem gp_poly_negate_inplace_ps_model (l : Level) (a : List Nat) (pc : Nat) (hd : l.n * l.size < B64)
+    (ha : pc * (l.size * l.n) ≤ a.length) (hB : a.length < B64) :
+    GenP.poly_negate_inplace_ps a pc l.n l.qs.toList =
+      (do let outs ← (List.range pc).mapM (fun i => rnsNeg l (unflattenRns l.size l.n (gp_blk (l.size * l.n) a i)))
+          pure ((outs.map (flattenRns l.size l.n)).flatten ++ a.drop (pc * (l.size * l.n)))) := by
+  unfold GenP.poly_negate_inplace_ps
+  have hck : ckMul l.n l.qs.toList.length = .ok (l.size * l.n) := by
+    unfold ckMul; rw [show l.qs.toList.length = l.size by simp [Level.size], if_pos hd, Nat.mul_comm]
+  simp only [hck, bind, Except.bind]
+  rw [gp_negate_inplace_ps_loop_eq]
+  apply gp_ps_model _ _ _ _ _ _ _ (fun _ _ x o h => gp_negate_inplace_p_len x l.n _ o h) _ ha hB
+  intro i hi
+  have hia : i * (l.size * l.n) + l.size * l.n ≤ a.length := Nat.le_trans (gp_blk_bound hi) ha
+  simp only [bind, Except.bind, pure, Except.pure]
+  exact gp_poly_negate_inplace_p_model l _ (gp_blk_length _ _ _ hia) (by rw [gp_blk_length _ _ _ hia]; omega)
+
+theorem gp_multiply_scalar_inplace_p_len (x : List Nat) (s n : Nat) (mods : List Modulus) (o : List Nat)
+    (h : GenP.poly_multiply_scalar_inplace_p x s n mods = .ok o) : o.length = x.length := by
+  unfold GenP.poly_multiply_scalar_inplace_p at h
+  simp only [] at h
+  rw [gp_multiply_scalar_inplace_p_loop_eq] at h
+  exact gp_bloop_length _ _ (gp_stepI_length _ _
+    (fun _ m x o h => gp_unI_len _ (fun u m => mulMod u s m) (fun x m => gp_poly_multiply_scalar_inplace_eq x s m) x m o h)) _ _ _ _ _ h
+
+theorem gp_multiply_scalar_inplace_ps_loop_eq (s pc n : Nat) (mods : List Modulus) (d : Nat) : ∀ cnt i r off,
+    GenP.poly_multiply_scalar_inplace_ps_loop1 s pc n mods d cnt i r off =
+      gp_bloop (gp_stepI (fun _ _ _ => (pure () : R Unit)) (fun _ _ x => GenP.poly_multiply_scalar_inplace_p x s n mods)) d cnt i r off := by
+  intro cnt
+  induction cnt with
+  | zero => intro i r off; rfl
+  | succ c ih =>
+    intro i r off
+    rw [GenP.poly_multiply_scalar_inplace_ps_loop1, gp_bloop]
+    simp only [gp_stepI, bind_assoc, pure_bind, ih]
+
+/-- `multiply_scalar_inplace_ps`: every word of the first `pcount` polynomials times the scalar (the `scale` step of `ctTranslateBalanced`) -/
+theorem gp_poly_multiply_scalar_inplace_ps_model (l : Level) (a : List Nat) (s pc : Nat) (hd : l.n * l.size < B64)
+    (ha : pc * (l.size * l.n) ≤ a.length) (hB : a.length < B64) :
+    GenP.poly_multiply_scalar_inplace_ps a s pc l.n l.qs.toList =
+      (do let outs ← (List.range pc).mapM (fun i => compsMap l.qs (unflattenRns l.size l.n (gp_blk (l.size * l.n) a i)) (fun x m => mulMod x s m))
+          pure ((outs.map (flattenRns l.size l.n)).flatten ++ a.drop (pc * (l.size * l.n)))) := by
+  unfold GenP.poly_multiply_scalar_inplace_ps
+  have hck : ckMul l.n l.qs.toList.length = .ok (l.size * l.n) := by
+    unfold ckMul; rw [show l.qs.toList.length = l.size by simp [Level.size], if_pos hd, Nat.mul_comm]
+  simp only [hck, bind, Except.bind]
+  rw [gp_multiply_scalar_inplace_ps_loop_eq]
+  apply gp_ps_model _ _ _ _ _ _ _ (fun _ _ x o h => gp_multiply_scalar_inplace_p_len x s l.n _ o h) _ ha hB
+  intro i hi
+  have hia : i * (l.size * l.n) + l.size * l.n ≤ a.length := Nat.le_trans (gp_blk_bound hi) ha
+  simp only [bind, Except.bind, pure, Except.pure]
+  exact gp_poly_multiply_scalar_inplace_p_model l _ s (gp_blk_length _ _ _ hia) (by rw [gp_blk_length _ _ _ hia]; omega)
 end HC
